@@ -8,6 +8,7 @@ NAMES = ['W_look', 'W_look2']
 D = W.depths_for(NAMES, quick=2, thorough=3, overrides={'quick': {'W_look2': 3}, 'thorough': {'W_look2': 4}})
 P = HistProp('C13', lambda t: W.make(NAMES), lambda w, t: [Lookups2()] if w.name == 'W_look2' else [Lookups()], D,
              origins={'quick': ('L', 'I'), 'thorough': ('L', 'I')},
+             depth_by_origin={'quick': {'I': 2}, 'thorough': {'I': 3}},
              rule='all histories over W_look; 18 lookup specs (Text key, two keys, Ref key, '
                   'CONTAINS with/without match_empty, order_by default/None/asc/desc/tuple/id, '
                   'sort_by) x lookupRecords and lookupOne as formula columns of Q; after every '
